@@ -42,6 +42,13 @@ class Obligation:
         self.ordinal = 0
 
 
+class MaybeUnbound:
+    """a local name that is bound only on some paths through a loop: (ghost flag, value)"""
+
+    def __init__(self, flag, value):
+        self.flag, self.value = flag, value
+
+
 class View:
     """attribute access to an environment for contract lambdas: s.times, s.status ..."""
 
@@ -55,11 +62,28 @@ class View:
             return ex[k]
         env = object.__getattribute__(self, '_env')
         if k in env:
-            return env[k]
+            v = env[k]
+            return v.value if isinstance(v, MaybeUnbound) else v
         raise Unbindable('contract refers to %r which is not bound in the analysed function' % k)
 
     def has(self, k):
         return k in object.__getattribute__(self, '_env') or k in object.__getattribute__(self, '_extra')
+
+    def bound(self, k):
+        """is the local name k definitely bound here? (z3 Bool)"""
+        env = object.__getattribute__(self, '_env')
+        if k not in env:
+            return BoolVal(False)
+        v = env[k]
+        return v.flag if isinstance(v, MaybeUnbound) else BoolVal(True)
+
+    def val(self, k, sort):
+        """value of local k, or an arbitrary value of `sort` when it is not bound"""
+        env = object.__getattribute__(self, '_env')
+        if k not in env:
+            return fresh('unbound_' + k, sort)
+        v = env[k]
+        return v.value if isinstance(v, MaybeUnbound) else v
 
 
 class Unbindable(Exception):
@@ -205,7 +229,12 @@ class Run:
 
     def ev_Name(self, e, env):
         if e.id in env:
-            return env[e.id]
+            v = env[e.id]
+            if isinstance(v, MaybeUnbound):
+                self.oblige('safety', 'name-bound:%s' % e.id, e.lineno, v.flag)
+                self.assume(v.flag)
+                return v.value
+            return v
         g = self.unit.globals_.get(e.id)
         if g is not None:
             return g
@@ -569,7 +598,7 @@ class Run:
             kk = coerce(k, base.ksort)
             if base.default is None:
                 self.oblige('safety', 'key-present', lineno, base.dom[kk])
-            else:
+            elif not getattr(base, 'no_insert', False):
                 base.dom = z3.Store(base.dom, kk, BoolVal(True))      # defaultdict read inserts the key
             if base.vobj is not None:
                 return base.vobj(kk)
@@ -1032,6 +1061,8 @@ class Run:
                             if all(o is not p for p in domonly):
                                 domonly.append(o)
                         callee_mod = []
+                    if callee_mod is None and isinstance(f, ast.Name) and f.id in self.lib.builtins and f.id not in env:
+                        callee_mod = []          # builtins used by the subset do not mutate their arguments
                     if callee_mod is None:
                         if isinstance(f, ast.Attribute):
                             # library / method call: arguments are not mutated by the tabulated library calls,
@@ -1065,10 +1096,13 @@ class Run:
     def havoc_for_loop(self, names, objs, domonly, env):
         for nm in sorted(names):
             v = env.get(nm) if nm in env else None
+            if isinstance(v, MaybeUnbound):
+                v = None
             if v is None:
                 mk = self.unit.locals_.get(nm)
                 if mk is not None:
-                    env[nm] = mk(self, nm)
+                    # not bound at loop entry: bound or not after some iterations (ghost flag)
+                    env[nm] = MaybeUnbound(fresh('bound_' + nm, B), mk(self, nm))
                 continue
             if z3.is_expr(v):
                 env[nm] = fresh(nm, v.sort())
@@ -1168,11 +1202,19 @@ class Run:
             it2 = LoopIter(i + 1, seq, entry)
             self.oblige('loop-preserve', 'loop%d-preserve' % k, n.lineno, spec.inv(self.view(env), it2))
             raise PathEnd()
-        # exit: i == n; loop variable keeps last value (if any) -- havocked unless the loop never ran
-        for t in tnames:
-            if t in env:
-                pass
+        # exit: i == n.  The loop variable keeps the last item (or stays as it was if the sequence is empty);
+        # modelled only when the variable is read after the loop.
+        if self.loaded_after(n, tnames):
+            if self.branch(seq.n > 0, n.lineno):
+                self.assign(n.target, mkitem(seq.n - 1), env, n.lineno)
         return
+
+    def loaded_after(self, loop, names):
+        end = loop.end_lineno
+        for x in ast.walk(self.unit.node):
+            if isinstance(x, ast.Name) and isinstance(x.ctx, ast.Load) and x.id in names and x.lineno > end:
+                return True
+        return False
 
     def view(self, env):
         return View(env, {'old': self.old, 'run': self})
